@@ -31,10 +31,33 @@ EXTRA = None  # valid histories only
 DISPOSAL_TYPES = ("GIFT", "DONATE", "FEE", "LOST", "STAKING")
 TZ_DEVS = (540, -300)
 SCALES = ("3/10", "1/100000000000")
+PRICE_SCALES = ("1/1000", "1/250")  # prices that differ by less than a cent / by fractions of a cent
+# 18:00 UTC on Dec 31: one hour steps cross midnight UTC, +09:00 is already the new year, -05:00 stays in the old one long after
+NEW_YEAR_BASE = "2020-12-31T18:00:00+00:00"
 
 
-def deviations(hist: History, max_dev: int) -> List[Tuple[History, Dict[str, Any], str]]:
+def new_year_variants(hist: History) -> List[Tuple[History, Dict[str, Any], str]]:
+    """The history replayed in one-hour steps from 18:00 UTC on Dec 31, with one transaction (every position, both
+    offsets) written in +09:00 / -05:00: its own calendar year differs from its UTC year, and the method in force is
+    the one of ITS year."""
+    from datetime import datetime
+
+    base = datetime.fromisoformat(NEW_YEAR_BASE)
+    out = []
+    stepped = tuple((it[0], "=" if it[1] == "=" else "h") for it in hist)
+    for tz in (0,) + TZ_DEVS:
+        for i in range(len(hist)):
+            if tz == 0 and i > 0:
+                continue
+            h2 = tuple((it[0], it[1], tz if j == i else 0) for j, it in enumerate(stepped))
+            out.append((h2, {"scale": 1, "base": base}, f"new-year;tz:{tz}@{i}"))
+    return out
+
+
+def deviations(hist: History, max_dev: Any) -> List[Tuple[History, Dict[str, Any], str]]:
     """All variants of hist with 1..max_dev deviations from the defaults (SELL, UTC, integer amounts)."""
+    if max_dev == "newyear":
+        return new_year_variants(hist)
     single: List[Tuple[str, Any]] = []
     for i, item in enumerate(hist):
         sym = item[0]
@@ -45,6 +68,8 @@ def deviations(hist: History, max_dev: int) -> List[Tuple[History, Dict[str, Any
             single.append(("tz", (i, tz)))
     for sc in SCALES:
         single.append(("scale", sc))
+    for sc in PRICE_SCALES:
+        single.append(("pscale", sc))
 
     def apply(devs: Sequence[Tuple[str, Any]]) -> Optional[Tuple[History, Dict[str, Any], str]]:
         items = [list(it) + ([0] if len(it) < 3 else []) for it in hist]
@@ -71,6 +96,11 @@ def deviations(hist: History, max_dev: int) -> List[Tuple[History, Dict[str, Any
                     return None
                 touched.add("scale")
                 opts["scale"] = arg
+            elif kind == "pscale":
+                if "pscale" in touched:
+                    return None
+                touched.add("pscale")
+                opts["price_scale"] = arg
         if use_hours:
             # hours instead of days, so that the wall-clock order of differently-zoned timestamps contradicts
             # the order of the instants
@@ -185,6 +215,8 @@ def plan(tier: str) -> List[Dict[str, Any]]:
             {"name": "three-year schedules", "schedules": three_year_schedules(), "steps": ("=", "d", "y"), "depth": 3, "dev": 0, "group": 6},
             {"name": "1 deviation", "schedules": singles, "steps": ("=", "d"), "depth": 3, "dev": 1, "group": 1, "from_depth": 2},
             {"name": "sheet order reversed", "schedules": singles, "steps": ("=", "d"), "depth": 3, "dev": 0, "group": 4, "row_order": "reverse"},
+            {"name": "two-year schedules across New Year, one transaction in another UTC offset", "schedules": two, "steps": ("=", "d"), "depth": 3, "dev": "newyear", "group": 3,
+             "from_depth": 2},
         ]
     return [
         {"name": "single methods", "schedules": singles, "steps": ("=", "d"), "depth": 5, "dev": 0, "group": 1},
@@ -194,6 +226,8 @@ def plan(tier: str) -> List[Dict[str, Any]]:
         {"name": "2 deviations", "schedules": singles, "steps": ("=", "d"), "depth": 3, "dev": 2, "group": 1, "from_depth": 2},
         {"name": "sheet order reversed", "schedules": singles, "steps": ("=", "d"), "depth": 4, "dev": 0, "group": 4, "row_order": "reverse"},
         {"name": "sheet order reversed, schedules", "schedules": two, "steps": ("=", "d", "y"), "depth": 3, "dev": 0, "group": 4, "row_order": "reverse"},
+        {"name": "two-year schedules across New Year, one transaction in another UTC offset", "schedules": two, "steps": ("=", "d"), "depth": 4, "dev": "newyear", "group": 2,
+         "from_depth": 2},
     ]
 
 
@@ -219,7 +253,8 @@ def main(tier: str, budget_s: Optional[float] = None) -> int:
         "distinct_outcome_signatures": len(total.sigs),
         "choice_nodes(>=2 lots and a disposal)": total.get("choice_nodes"),
         "alphabet": [H.sym_str(s) for s in SYMBOLS],
-        "deviation_alphabet": {"disposal types": list(DISPOSAL_TYPES), "tz minutes": list(TZ_DEVS), "amount scales": list(SCALES)},
+        "deviation_alphabet": {"disposal types": list(DISPOSAL_TYPES), "tz minutes": list(TZ_DEVS), "amount scales": list(SCALES), "price scales": list(PRICE_SCALES),
+                               "new-year phase": "steps of one hour from 2020-12-31 18:00 UTC, one transaction in +09:00 / -05:00, schedules switching on 2021-01-01"},
         "phases": info,
         "per_depth": {k: v for k, v in sorted(total.counters.items()) if k.startswith("states_depth_")},
         "exhaustive": bool(complete),
